@@ -14,13 +14,6 @@ import MiniVecProof.Proofs.MemLoop
 namespace MV.Props
 open MV MV.Gen MV.GM VM
 
-theorem lift_new_empty (X : Ctx) (hz : 0 < X.c.elemSize) (s : St) :
-    VM.lift X (new X.env) { s with v := {} } = (.ok (), { s with v := {} }) := by
-  rw [lift_run, new_spec]
-  have : X.env.c.elemSize > 0 := hz
-  simp only [this, if_true]
-  simp [GS.reset, hsOf, replay, replay1, withHdr]
-
 /-- one round of the cloning loop -/
 theorem clone_round (X : Ctx) (hq : ∀ k, X.o.panicAt k = false) (src : VSt) (es : List Elem) (h : Abs X src es) :
     RoundSpec X es.length (fun i e => (es[i]?).map (·.val) = some e.val) (fun i => do
@@ -35,32 +28,6 @@ theorem clone_round (X : Ctx) (hq : ∀ k, X.o.panicAt k = false) (src : VSt) (e
   cases hp with
   | pushed s' habs' _ => exact .inl ⟨_, s', rfl, habs', by simp [List.getElem?_eq_getElem hi]⟩
   | stopped p s' hv' hb => exact .inr ⟨p, s', rfl, hb, by rw [hv', hv]⟩
-
-theorem dropVec_ok (X : Ctx) (hq : ∀ k, X.o.panicAt k = false) (s : St) (es : List Elem) (h : Abs X s.v es) :
-    ∃ s', Vec.dropVec X s = (.ok (), s') := by
-  obtain ⟨h1, h2⟩ := dropVec_spec X hq s es h
-  cases hd : s.v.isDefault with
-  | true => exact ⟨s, h1 hd⟩
-  | false => obtain ⟨b, _, hr⟩ := h2 hd; exact ⟨_, hr⟩
-
-/-- a local vector built by a computation that keeps it well formed: `withLocal` hands it out on
-    success and destroys it on a sanctioned stop, restoring the focus either way -/
-theorem withLocal_spec {α} (X : Ctx) (hq : ∀ k, X.o.panicAt k = false) (x : VM α) (s : St) (Q : α → St → Prop)
-    (hx : (∃ a s', x { s with v := {} } = (.ok a, s') ∧ Q a s') ∨
-          (∃ p s' acc, x { s with v := {} } = (.error p, s') ∧ Panic.benign p = true ∧ Abs X s'.v acc)) :
-    (∃ a s', Vec.withLocal X {} x s = (.ok (a, s'.v), { s' with v := s.v }) ∧ Q a s') ∨
-    (∃ p s', Vec.withLocal X {} x s = (.error p, s') ∧ Panic.benign p = true ∧ s'.v = s.v) := by
-  unfold Vec.withLocal
-  rcases hx with ⟨a, s', hr, hQ⟩ | ⟨p, s', acc, hr, hb, habs⟩
-  · exact .inl ⟨a, s', by rw [hr], hQ⟩
-  · rw [hr]
-    simp only
-    by_cases hu : VM.unwinds p = true
-    · obtain ⟨s2, hd⟩ := dropVec_ok X hq s' acc habs
-      rw [if_pos hu, hd]
-      exact .inr ⟨p, _, rfl, hb, rfl⟩
-    · rw [if_neg hu]
-      exact .inr ⟨p, _, rfl, hb, rfl⟩
 
 /-- (C12) `Clone for MiniVec` -/
 theorem C12_clone_partial (X : Ctx) (hq : ∀ k, X.o.panicAt k = false) (s : St) (es : List Elem) (h : Abs X s.v es) :
